@@ -46,6 +46,20 @@ def _fint_str(v: str) -> bool:
     return isinstance(r, numbers.Integral) and mp.fint(r) == r
 
 
+def _fint_numeric_text(m: int, f: int, e: int) -> bool:
+    """
+    pre: 1 <= m <= 3 and 3 <= f <= 6 and 0 <= e <= 3
+    post: _
+    """
+    # a numeric text denotes the integer part of its value in every
+    # notation Python's float() accepts (plain, decimal point, exponent)
+    t1 = "%d.%de%d" % (m, f, e)
+    return (mp.fint(t1) == (m * 10 + f) * 10 ** e // 10
+            and mp.fint("%de%d" % (m, e)) == m * 10 ** e
+            and mp.fint("%d.%d" % (m, f)) == m
+            and mp.fint("%d%d" % (m, f)) == 10 * m + f)
+
+
 def _fbool_str(v: str) -> bool:
     """
     pre: len(v) <= 2 and _ascii(v)
